@@ -220,7 +220,8 @@ namespace rkcommon {
     {
       const size_t size = count * sizeof(T);
 
-      if (cursor + size > buffer->size()) {
+      // (written so that a huge count cannot wrap around)
+      if (count > (buffer->size() - cursor) / sizeof(T)) {
         throw std::runtime_error("Attempt to read past end of BufferReader!");
       }
 
